@@ -1,4 +1,5 @@
 (* C11 — no over-consumption; exact counters. *)
+From V Require Import Prefix.ReaderImpl Window.Dict Flate.Impl Flate.ImplRel Flate.ImplThms Flate.ImplExamples.
 From V Require Import Prefix.ReaderImpl Prefix.ReaderSpec Prefix.ReaderThms.
 From V Require Import Base.Prelude Base.Prog Base.ProgThms Flate.Spec Flate.Thms Life.ReadLoop.
 
@@ -59,3 +60,19 @@ Print Assumptions bit_reader_consumes_exactly_buffered.
 Theorem bit_reader_consumes_exactly_bytereader : reader_refines_bytereader.
 Proof. exact reader_refines_bytereader_holds. Qed.
 Print Assumptions bit_reader_consumes_exactly_bytereader.
+
+(* flate.Reader at implementation level: on BOTH source kinds, every script and every Read
+   schedule, a valid stream ends in io.EOF with InputOffset = the stream's length and the source
+   advanced by exactly that many bytes - nothing after the stream is consumed - and
+   OutputOffset = the bytes delivered *)
+Theorem flate_reader_consumes_exactly_the_stream :
+  forall data bf fills reads st0 sched obs fin,
+    bytes_lt256 data -> start_state data bf fills reads st0 -> fl_run st0 sched = (obs, fin) ->
+    Flate.Spec.ir_err (Flate.Spec.inflate data) = None ->
+    forall e, run_err obs = Some e ->
+      e = EEOF /\ concat_bytes obs = Flate.Spec.ir_out (Flate.Spec.inflate data) /\
+      f_inOff fin = Z.of_N (Flate.Spec.ir_used (Flate.Spec.inflate data)) /\
+      s_pos (p_src (f_rd fin)) = N.to_nat (Flate.Spec.ir_used (Flate.Spec.inflate data)) /\
+      f_outOff fin = zlen (concat_bytes obs).
+Proof. exact flate_impl_refines_rfc1951_valid. Qed.
+Print Assumptions flate_reader_consumes_exactly_the_stream.
